@@ -385,6 +385,131 @@ def answerScan (t : TableMeta) (lay : List RowSet) (s : Sexp) : String :=
             | none => "none") ++ "))"
   | _ => "(sc bad-request)"
 
+/-! ### Small-domain search on the model (used by the checks to look for a concrete input on
+which the PROPERTY fails; every hit is replayed on the implementation) -/
+
+/-- sorted key lists over {0,1,2} of length 1..n -/
+def sortedKeyLists : Nat → List (List Int)
+  | 0 => []
+  | n + 1 =>
+    let shorter := sortedKeyLists n
+    let exact := (shorter.filter (·.length == n)) ++ (if n == 0 then [[]] else [])
+    shorter ++ (exact.flatMap fun l => ([0, 1, 2] : List Int).filterMap fun v =>
+      if l.all (· ≤ v) then some (l ++ [v]) else none)
+
+def mkRowSet (ncols k : Nat) (id : Nat) (keys : List Int) (flat : Bool := false) : RowSet :=
+  let rows := keys.zipIdx.map fun (v, i) =>
+    (List.range ncols).map fun c => if c == k then Val.i32 v else Val.i32 (if flat then 0 else 7 - (i : Int) - 3 * (id : Int))
+  let counts := (List.range ((keys.length + 1) / 2)).map fun b => if 2 * b + 2 ≤ keys.length then 2 else 1
+  { id := id, rows := rows, dead := [], blocks := (List.range ncols).map fun _ => counts }
+
+def layoutsUpTo (ncols k : Nat) (flat : Bool := false) : List (List RowSet) :=
+  let big := (sortedKeyLists 4).filter (!·.isEmpty)
+  let small := (sortedKeyLists 2).filter (!·.isEmpty)
+  (big.map fun a => [mkRowSet ncols k 0 a flat]) ++
+  (big.flatMap fun a => big.map fun b => [mkRowSet ncols k 0 a flat, mkRowSet ncols k 1 b flat]) ++
+  (small.flatMap fun a => small.flatMap fun b => small.map fun c => [mkRowSet ncols k 0 a flat, mkRowSet ncols k 1 b flat, mkRowSet ncols k 2 c flat])
+
+def allBnds : List Bnd :=
+  [.unb] ++ ([0, 1, 2] : List Int).flatMap fun v => [.incl (.i32 v), .excl (.i32 v)]
+
+def showBnd : Bnd → String
+  | .unb => "unb"
+  | .incl v => "(incl " ++ v.canon ++ ")"
+  | .excl v => "(excl " ++ v.canon ++ ")"
+
+def showLay (k : Nat) (lay : List RowSet) : String :=
+  " ".intercalate (lay.map fun rs => "(" ++ " ".intercalate (rs.rows.map fun r => "(" ++ " ".intercalate (r.map Val.canon) ++ ")") ++ ")")
+
+structure Hit where
+  attr : String
+  size : Nat
+  text : String
+
+def addHit (hits : List Hit) (h : Hit) : List Hit :=
+  match hits.find? (·.attr == h.attr) with
+  | some old => if h.size < old.size then h :: hits.filter (·.attr != h.attr) else hits
+  | none => h :: hits
+
+/-- C13: every table shape (1-2 columns, key anywhere), scan list, layout and range of the small
+domain; the property is `scan(cols, r) = filter(scan(cols), r on the key)` -/
+def searchC13 : List Hit × Nat × Nat := Id.run do
+  let mut hits : List Hit := []
+  let mut n := 0
+  let mut bad := 0
+  for (ncols, k, cols, flat) in ([(1, 0, [0], false), (2, 0, [0, 1], false), (2, 0, [1, 0], false), (2, 1, [0, 1], false),
+      (2, 1, [1], false), (2, 1, [1], true), (2, 1, [1, 0], true)] : List (Nat × Nat × List Nat × Bool)) do
+    for lay in layoutsUpTo ncols k flat do
+      let full := concatScan lay
+      for lo in allBnds do
+        for hi in allBnds do
+          let rg : KeyRange := ⟨lo, hi⟩
+          n := n + 1
+          let spec := full.filter fun row => sqlInRange rg (Row.at row k)
+          let exec := scanTable lay cols (some rg)
+          let ok := match exec with
+            | .ok rows => sameResult [] cols rows spec
+            | .panic _ => false
+          if !ok then
+            bad := bad + 1
+            let tags := (if cols.head? != some k then ["range:key-not-first-scanned"] else []) ++
+              (if k != 0 then ["range:key-not-col0"] else []) ++
+              (if dupAcrossBlocks lay k rg then ["range:dup-keys-across-blocks"] else [])
+            let cands := sortBy (fun (a b : List String) => compare a.length b.length) ((sublistsUpTo 3 tags).filter (!·.isEmpty))
+            let attr := cands.find? fun sub =>
+              match collectOut (lay.map fun rs => scanRowSetCF (sub.foldl fixOf {}) k rs cols rg) with
+              | .ok ls => sameResult [] cols ls.flatten spec
+              | .panic _ => false
+            let a := match attr with
+              | some sub => " ".intercalate sub
+              | none => "none"
+            let size := full.length + lay.length + ncols
+            hits := addHit hits ⟨a, size, "(found c13 (attr " ++ a ++ ") (ncols " ++ toString ncols ++ ") (key " ++ toString k ++
+              ") (cols " ++ " ".intercalate (cols.map toString) ++ ") (range " ++ showBnd lo ++ " " ++ showBnd hi ++ ") (rowsets " ++ showLay k lay ++ "))"⟩
+  return (hits, n, bad)
+
+/-- C12: `SELECT key FROM t ORDER BY key [DESC] [LIMIT n] [OFFSET m]` over every small layout of
+keyed and unkeyed one/two-column tables, planned the way the optimizer does (`limit-order-topn`
+first, then `useless-order` when `is_orderby`); the property is "sorted permutation, then slice" -/
+def searchC12 : List Hit × Nat × Nat := Id.run do
+  let mut hits : List Hit := []
+  let mut n := 0
+  let mut bad := 0
+  for (ncols, k, keyed) in ([(1, 0, true), (1, 0, false), (2, 1, true), (2, 0, true)] : List (Nat × Nat × Bool)) do
+    let t : TableMeta := { primary := if keyed then [k] else [], sortedByPk := true }
+    for lay0 in layoutsUpTo ncols k do
+      -- unkeyed tables keep insertion order: reverse the rows so that row-sets are not sorted
+      let lay := if keyed then lay0 else lay0.map fun rs => { rs with rows := rs.rows.reverse }
+      for desc in [false, true] do
+        for (lim, off) in ([(none, 0), (some 1, 0), (none, 1), (some 2, 1)] : List (Option Nat × Nat)) do
+          n := n + 1
+          let ks : List OrdKey := [⟨k, desc⟩]
+          let scanAll : Plan := .scan (List.range ncols) (.const (.bool true))
+          let bound : Plan := .limit lim off (.proj [k] (.order ks scanAll))
+          let scanK : Plan := .scan [k] (.const (.bool true))
+          let opt : Plan :=
+            if lim.isSome || off != 0 then .topn lim off ks scanK
+            else if isOrderBy t ks scanK then scanK else .order ks scanK
+          let spec := specPlan lay bound
+          let ok := match execPlan lay opt with
+            | .ok rows => sameResult ks [k] rows spec
+            | .panic _ => false
+          if !ok then
+            bad := bad + 1
+            let tags := tagsOf t lay bound opt
+            let a := match attributeTags t lay ks [k] opt spec tags with
+              | some sub => " ".intercalate sub
+              | none => "none"
+            let size := (concatScan lay).length + lay.length + ncols
+            hits := addHit hits ⟨a, size, "(found c12 (attr " ++ a ++ ") (ncols " ++ toString ncols ++ ") (key " ++ toString k ++
+              ") (keyed " ++ toString keyed ++ ") (desc " ++ toString desc ++ ") (limit " ++ (match lim with | some x => toString x | none => "none") ++
+              ") (offset " ++ toString off ++ ") (rowsets " ++ showLay k lay ++ "))"⟩
+  return (hits, n, bad)
+
+def searchAnswer (which : String) : String :=
+  let (hits, n, bad) := if which == "c13" then searchC13 else searchC12
+  "(search " ++ which ++ " (enumerated " ++ toString n ++ ") (failing " ++ toString bad ++ ") " ++ " ".intercalate (hits.map (·.text)) ++ ")"
+
 def attachBlocks (blocks : List Sexp) (rs : RowSet) : RowSet :=
   let mine := blocks.findSome? fun b => match b with
     | .list (.atom "b" :: .atom id :: cols) => if id.toNat? == some rs.id then some cols else none
@@ -397,6 +522,7 @@ def attachBlocks (blocks : List Sexp) (rs : RowSet) : RowSet :=
 
 def answer (line : String) : String :=
   match Sexp.parse line with
+  | some (.list [.atom "search", .atom which]) => searchAnswer which
   | some (.list (.atom "case" :: .atom id :: rest)) =>
     match field "table" rest, field "ops" rest, field "snap" rest, field "queries" rest with
     | some tb, some ops, some snap, some qs =>
